@@ -131,7 +131,7 @@ fn dispatch(args: &[String], tier: common::Tier) -> i32 {
         "C17" => c17::run(&Ctx::new("C17", tier).reduced().with_filter(c17::filter())),
         "C08" => c08::run(&Ctx::new("C08", tier)),
         "C09" => c09::run(&Ctx::new("C09", tier)),
-        "C18" => c18::run(&Ctx::new("C18", tier).reduced().with_filter(|k| k.contains(".size") || k.starts_with("panic|") || k.starts_with("fi.capacity"))),
+        "C18" => c18::run(&Ctx::new("C18", tier).reduced().with_filter(|k| k.contains(".size") || k.starts_with("panic|") || k.starts_with("fi.capacity") || k.starts_with("theta.trim"))),
         "C01" => c01::run(&Ctx::new("C01", tier).reduced().with_filter(c01::filter)),
         "C07" => c07::run(&Ctx::new("C07", tier).with_filter(|k| !k.starts_with("fi.roundtrip"))),
         "C10" => c10::run(&Ctx::new("C10", tier)),
